@@ -23,6 +23,9 @@ OBLIGATIONS = [
     "KafVerif.C11.skipResponseHeader_reply",
     "KafVerif.C11.skipResponseHeader_short",
     "KafVerif.C11.skipResponseHeader_apiversions_shifted",
+    "KafVerif.C11.nonflex_string_roundtrip",
+    "KafVerif.C11.nonflex_string_overflow_rejected",
+    "KafVerif.C11.nonflex_string_65535_reads_null",
 ]
 BUILDS = {
     "b": ("root", "./cmd/broker", ["C10", "C11"]),
